@@ -12,9 +12,11 @@ from common import REPO, enc_str, use_repo
 use_repo()
 
 from pedal import contextualize_report, clear_report                      # noqa: E402
+from pedal.core.report import Report, MAIN_REPORT                          # noqa: E402
 from pedal.assertions import static as st                                  # noqa: E402
 from pedal.cait.cait_api import find_asts                                  # noqa: E402
 from pedal.cait.find_node import find_operation, find_function_calls       # noqa: E402
+from pedal.cait import find_node as _fn                                    # noqa: E402
 
 # --------------------------------------------------------------------------
 # CPython's own reading of operator symbols (independent of pedal and of the translator)
@@ -512,13 +514,79 @@ PREVENT = {"op": st.prevent_operation, "call": st.prevent_function_call, "lit": 
 COUNT_FIELD = {"op": "use_count", "call": "call_count", "lit": "use_count", "lty": "use_count", "ast": "use_count"}
 
 
-def load(src, main_file=None):
-    clear_report()
-    if main_file is None:
-        contextualize_report(src)
+# "which report" dimension.  Every entry point takes report=; the property is about the program of the report that
+# was NAMED (MAIN_REPORT when none is).  A `where` says which Report object holds the program under test and what
+# the other one holds meanwhile:
+#   main            the program on MAIN_REPORT, no report= given, no other report (the historical set-up)
+#   main+other      the program on MAIN_REPORT, no report= given; a second Report holds a DECOY program
+#   main-explicit   the same, with report=MAIN_REPORT spelled out
+#   own+decoy       the program on an own Report() passed as report=; MAIN_REPORT holds a DECOY program
+#   own+empty       the program on an own Report() passed as report=; MAIN_REPORT holds no submission at all
+WHERE_MODES = ["main", "main+other", "main-explicit", "own+decoy", "own+empty"]
+WHERE_WEIGHTS = [30, 12, 12, 30, 16]
+MAIN_WHERE = {"mode": "main", "decoy": None}
+CUR = {"kw": {}, "target": MAIN_REPORT, "other": None, "mode": "main"}
+
+
+def decoy_for(rng, src):
+    """Another program with (very probably) different counts for most queries; never the program under test."""
+    r = rng.random()
+    if r < 0.45:
+        d = rng.choice(OTHER_SOURCES)
+    elif r < 0.75:      # a superset: every count at least as large, lines shifted
+        d = rng.choice(OTHER_SOURCES) + src
+        try:
+            ast.parse(d)
+        except (SyntaxError, ValueError):
+            d = rng.choice(OTHER_SOURCES)
     else:
-        from pedal.core.submission import Submission
-        contextualize_report(Submission({main_file: src}, main_file))
+        d = Gen(rng).program(max_stmts=3)
+    if d == src or not d.strip():
+        d = "print(1 + 1 < 2, [0], 'decoy')\nimport decoy\nwhile decoy.f(True):\n    pass\n"
+    return d
+
+
+def pick_where(rng, src):
+    mode = rng.choices(WHERE_MODES, WHERE_WEIGHTS)[0]
+    # "verify": the Source tool parsed each report's program first (CAIT then takes over Source's tree of THAT report)
+    return {"mode": mode, "decoy": None if mode in ("main", "own+empty") else decoy_for(rng, src),
+            "verify": rng.random() < 0.4}
+
+
+def _submission(src, main_file):
+    if main_file is None:
+        return src
+    from pedal.core.submission import Submission
+    return Submission({main_file: src}, main_file)
+
+
+def load(src, main_file=None, where=None):
+    where = where or MAIN_WHERE
+    mode = where["mode"]
+    clear_report()
+    CUR.update(kw={}, target=MAIN_REPORT, other=None, mode=mode)
+    if mode.startswith("own"):
+        own = Report()
+        if mode == "own+decoy":
+            contextualize_report(where["decoy"])
+        contextualize_report(_submission(src, main_file), report=own)
+        CUR.update(kw={"report": own}, target=own, other=MAIN_REPORT)
+    else:
+        contextualize_report(_submission(src, main_file))
+        if mode != "main":
+            other = Report()
+            contextualize_report(where["decoy"], report=other)
+            CUR["other"] = other
+        if mode == "main-explicit":
+            CUR["kw"] = {"report": MAIN_REPORT}
+    if where.get("verify"):
+        from pedal.source import verify
+        for r in (CUR["other"], CUR["target"]):
+            if r is not None and r.submission is not None:
+                try:
+                    verify(**({} if r is MAIN_REPORT else {"report": r}))
+                except Exception:  # noqa: Source's own behaviour is not under test here
+                    pass
 
 
 def _exc(e):
@@ -534,22 +602,35 @@ OTHER_SOURCES = [
 
 
 def distract(rng, src):
-    """Parse/search some OTHER program through the public student_code= argument (results are not judged)."""
+    """Parse/search some OTHER program through the public student_code= argument, on the report under test or on
+    the other live report, or look at the other report's own program (results are not judged)."""
     other = rng.choice(OTHER_SOURCES)
     if other == src:
         return
+    rep = CUR["target"]
+    if CUR["other"] is not None and rng.random() < 0.6:
+        rep = CUR["other"]
+    kw = {} if rep is MAIN_REPORT and rng.random() < 0.5 else {"report": rep}
     try:
-        how = rng.randrange(4)
+        how = rng.randrange(6 if CUR["other"] is not None else 4)
         if how == 0:
-            find_asts(rng.choice(["While", "For", "Call", "Compare", "Num"]), student_code=other)
+            find_asts(rng.choice(["While", "For", "Call", "Compare", "Num"]), student_code=other, **kw)
         elif how == 1:
-            st.parse_program(other)
+            st.parse_program(other, **kw)
         elif how == 2:
             from pedal.cait.cait_api import find_matches
-            find_matches("_x_ = ___", student_code=other)
-        else:  # same other program twice: the second time comes from CAIT's cache
-            st.parse_program(other)
-            find_asts("Name", student_code=other)
+            find_matches("_x_ = ___", student_code=other, **kw)
+        elif how == 3:  # same other program twice: the second time comes from CAIT's cache
+            st.parse_program(other, **kw)
+            find_asts("Name", student_code=other, **kw)
+        elif how == 4:  # the other report's OWN program is parsed / searched (most recent tree = the decoy's)
+            okw = {} if CUR["other"] is MAIN_REPORT and rng.random() < 0.5 else {"report": CUR["other"]}
+            st.parse_program(**okw)
+            find_asts(rng.choice(["Call", "Name", "Num"]), **okw)
+        else:           # a whole check on the other report
+            okw = {} if CUR["other"] is MAIN_REPORT and rng.random() < 0.5 else {"report": CUR["other"]}
+            rng.choice([st.prevent_ast, st.ensure_ast])("Call", **okw)
+            rng.choice([st.prevent_function_call, st.ensure_operation])(rng.choice(["print", "+"]), **okw)
     except Exception:  # noqa: the distraction itself is not under test
         pass
 
@@ -558,12 +639,13 @@ def real_find(q):
     """find_asts / find_operation / find_function_calls -> list of (kind, line, col), or None if no finder."""
     kind, arg = q
     try:
+        kw = CUR["kw"]
         if kind == "op":
-            found = find_operation(arg)
+            found = find_operation(arg, **kw)
         elif kind == "call":
-            found = find_function_calls(arg)
+            found = find_function_calls(arg, **kw)
         elif kind == "ast":
-            found = find_asts(arg)
+            found = find_asts(arg, **kw)
         else:
             return None
         return [node_key(c.astNode) for c in found]
@@ -571,24 +653,62 @@ def real_find(q):
         return _exc(e)
 
 
-def real_find_explicit(q, submission_src, code):
+def real_find_explicit(q, submission_src, code, where=None):
     """The finders asked about explicitly given `code` while the submission is `submission_src`.
-    find_asts takes student_code=; find_operation / find_function_calls take root=parse_program(code)."""
+    find_asts takes student_code=; find_operation / find_function_calls take root=parse_program(code).
+    With a `where`, all of it happens on the report that `where` names (the other one holds a decoy / nothing)."""
     kind, arg = q
-    load(submission_src)
+    load(submission_src, None, where)
+    kw = CUR["kw"]
     try:
-        st.parse_program()          # the submission was looked at first (so a 'current tree' exists)
+        st.parse_program(**kw)      # the submission was looked at first (so a 'current tree' exists)
         if kind == "ast":
-            found = find_asts(arg, student_code=code)
+            found = find_asts(arg, student_code=code, **kw)
         elif kind == "op":
-            found = find_operation(arg, root=st.parse_program(code))
+            found = find_operation(arg, root=st.parse_program(code, **kw), **kw)
         elif kind == "call":
-            found = find_function_calls(arg, root=st.parse_program(code))
+            found = find_function_calls(arg, root=st.parse_program(code, **kw), **kw)
         else:
             return None
         return [node_key(c.astNode) for c in found]
     except Exception as e:  # noqa
         return _exc(e)
+
+
+def real_extra(src, where=None):
+    """The remaining find_* entry points that take report= (thin wrappers, not modelled): function_is_called and
+    find_function_definition, asked under `where`.  -> list of (entry point, name, got, wanted, ok)"""
+    tree = ast.parse(src)
+    names = {"print", "nothing_calls_this"}
+    defs = {}
+    for n in ast.walk(tree):
+        if isinstance(n, ast.Call):
+            if isinstance(n.func, ast.Name):
+                names.add(n.func.id)
+            elif isinstance(n.func, ast.Attribute):
+                names.add(n.func.attr)
+        if isinstance(n, ast.FunctionDef):
+            names.add(n.name)
+            defs.setdefault(n.name, []).append(node_key(n))
+    load(src, None, where)
+    kw = CUR["kw"]
+    out = []
+    for name in sorted(names):
+        want = len(oracle_nodes(tree, ("call", name)))
+        try:
+            got = _fn.function_is_called(name, **kw)
+        except Exception as e:  # noqa
+            got = _exc(e)
+        out.append(("function_is_called", name, got, want, got == want))
+        want = sorted(defs.get(name, []))
+        try:
+            d = _fn.find_function_definition(name, **kw)
+            got = None if d is None else node_key(d.astNode)
+        except Exception as e:  # noqa
+            got = _exc(e)
+        out.append(("find_function_definition", name, got, want,
+                    (got is None and not want) or (isinstance(got, tuple) and got in want)))
+    return out
 
 
 ALIASES = {("op", "ensure"): st.ensure_operator, ("op", "prevent"): st.prevent_operator}
@@ -602,16 +722,17 @@ def real_check(q, which, threshold, spelling=0):
         fn = (ENSURE if which == "ensure" else PREVENT)[kind]
         if spelling == 2:
             fn = ALIASES.get((kind, which), fn)
+        kw = CUR["kw"]
         if kind == "imp":
-            fb = fn(arg)
+            fb = fn(arg, **kw)
         elif spelling == 1:
-            fb = fn(arg, threshold)
+            fb = fn(arg, threshold, **kw)
         elif spelling == 2 and kind in ("call", "ast", "op"):
-            fb = fn(arg, root=st.parse_program(), **{("at_least" if which == "ensure" else "at_most"): threshold})
+            fb = fn(arg, root=st.parse_program(**kw), **{("at_least" if which == "ensure" else "at_most"): threshold}, **kw)
         elif which == "ensure":
-            fb = fn(arg, at_least=threshold)
+            fb = fn(arg, at_least=threshold, **kw)
         else:
-            fb = fn(arg, at_most=threshold)
+            fb = fn(arg, at_most=threshold, **kw)
         loc = getattr(fb, "location", None)
         line = getattr(loc, "line", None) if loc is not None else None
         return {"fired": bool(fb), "line": line, "count": fb.fields.get(COUNT_FIELD.get(kind, "")), }
